@@ -66,6 +66,8 @@ POOL = [
     ["Z = {'k': [1, 2], 'self': None}  # print len self"],
     ["ASSERT = 1; assert ASSERT, \\", "    'msg'"],
     ["\\", "FIRST = 1  # the first token of the file is on line 2"],
+    ["# page break below", "\f", "AFTER_FF = 1"],
+    ["U = 'line\u2028sep' + 'nel\x85x'  # \x1c \x1d \x1e are not line ends for Python"],
 ]
 BODY = [
     ["x = 1"],
